@@ -3,5 +3,7 @@
 // be in the executable's dynamic symbol table.
 fn main() {
     println!("cargo:rustc-link-arg-bins=-Wl,--export-dynamic-symbol=getrandom");
+    // same for `statx` (std::fs::metadata): see src/disk.rs
+    println!("cargo:rustc-link-arg-bins=-Wl,--export-dynamic-symbol=statx");
     println!("cargo:rerun-if-changed=build.rs");
 }
